@@ -47,7 +47,8 @@ DEFS = {
         },
         "rule": ("plan = seeded grid (0-3 unpacked parameters, up to 24 combinations; ints, floats, strings, numpy arrays), rep_max, stop rule, skip pattern, "
                  "virtual durations and clock jumps, and a history of 1-4 simulate()/simulate(i)/rep_max changes on one runner or on fresh runners sharing the disk; "
-                 "no faults (C07 injects them). distinct = distinct event-log digests; non-trivial = more than one variation or more than one call in the history"),
+                 "also: the grid changed on the live runner between two calls (parameter un-marked / marked, values re-ordered in the start hook), grids mixing types, an array-valued result from a reused buffer, "
+                 "progress-bar styles; no disk faults (C07 injects them), but without a results file a call may be cut short by an exception (user program / Ctrl-C) and simulate() called again, which must satisfy the statement on its own. distinct = distinct event-log digests; non-trivial = more than one variation or more than one call in the history"),
         "assumptions": ["serial simulate only; simulate_in_parallel needs ipyparallel which is not installed",
                         "the number of _keep_going evaluations and anything about timing is deliberately not constrained"],
         "components": RUNNER_COMPONENTS,
